@@ -14,7 +14,7 @@ from vf.sexpr import Env, UFuncs, Undefined, ev, from_pym, has, size, to_pym, va
 
 ID = "C18"
 LEVEL = "exploration"
-RULE = ("expressions over sums, products, calls (positional/keyword), powers (exponent 2/3 or a variable), "
+RULE = ("expressions over sums, products, calls (positional/keyword, tuple-valued arguments), powers (exponent 2/3 or a variable), "
         "nested to depth<=4 with repeated subterms, x EVERY subset of their variables (<=5) as the free set; "
         "quotients/subscripts/conditionals only in a separate non-deciding class. Each result is evaluated at "
         "6 valuations x 2 function tables. distinct = canonical JSON of (expression, free set); non-trivial = "
@@ -55,8 +55,13 @@ def gen(rng, depth, pool, nd=False):
         e = ["*"] + [gen(rng, depth - 1, pool, nd) for _ in range(rng.choice([2, 2, 3, 4, 5]))]
     elif r < 0.88:
         kws = rng.sample(["k", "m"], rng.choice([0, 0, 1, 2]))
-        e = ["call", rng.choice(FUNCS), [gen(rng, depth - 1, pool, nd) for _ in range(rng.choice([1, 2, 3]))],
-             {k: gen(rng, depth - 1, pool, nd) for k in kws}]
+
+        def arg():
+            # sometimes a tuple of expressions, as the parser produces for 'f((y, t + dt), dt)' / 'g(x, w=(y, 2))'
+            if rng.random() < 0.15:
+                return ["tuple"] + [gen(rng, max(0, depth - 2), pool, nd) for _ in range(rng.choice([1, 2, 2, 3]))]
+            return gen(rng, depth - 1, pool, nd)
+        e = ["call", rng.choice(FUNCS), [arg() for _ in range(rng.choice([1, 2, 3]))], {k: arg() for k in kws}]
     elif r < 0.96 or not nd:
         ex = (["num", rng.choice([2, 3, 2, 0.5, 1.5])] if rng.random() < 0.7 else ["var", rng.choice(VARS)])
         e = ["**", gen(rng, depth - 1, pool, nd), ex]
